@@ -27,7 +27,7 @@ CLAIMED["C03"] = dict(
          "over the view, the view is the latest value, and the real serializer writes exactly `size` bytes, all inside the reserved allocation (CBMC pointer checks on the raw "
          "copy_nonoverlapping), with every live header exactly once. (3) complete() for 204, set_payload/set_text/drop_content state contracts.",
     design_ref="DESIGN.md §4 C03",
-    note="Bounded in N (4 instead of 47), history length (3), value lengths (0..2). Response::send, Set-Cookie lines and the HEAD branch are not under a discharged contract. "
+    note="Bounded in N (4 instead of 47), history length (3), value lengths (0..2). The serialization block of Response::send's Payload branch is under contract only in the thorough tier (extracted verbatim; one body length; 315 s / ~20 GB); its await points, the None / WebSocket branches, Set-Cookie lines are not. "
          "Trusted: Kani/CBMC, ohkami_lib::map::TupleMap executed not specified. A genuine defect found by these obligations was repaired (fix: 7ef1524).",
     technique="Kani harness contracts: representation invariant + abstract view per operation from an arbitrary state (inductive), enumerated histories with symbolic contents for the header block",
 )
@@ -37,10 +37,11 @@ CLAIMED["C01"] = dict(
     text="Bounded. Per-step matching contracts on the real router code: split_next_section (attribute contract, proof_for_contract), Pattern::take_through for Static "
          "(matches iff the identical whole segment(s), not a byte prefix) and Param (non-empty segment, exactly that segment pushed as param), Path::init_with_request_bytes "
          "(one trailing slash ignored), each for all byte strings up to 8 bytes; and Node::search_target on three concrete final trees (static+param siblings, a compressed chain, "
-         "two nested params with a static alternative) for EVERY request path up to 8 bytes against the segment-wise reference (target node, hit/miss, captured params).",
-    design_ref="DESIGN.md §4 C01",
+         "two nested params with a static alternative) for EVERY request path up to 8 bytes against the segment-wise reference (target node, hit/miss, captured params). Router::handle over six one-route trees with distinct handlers: each of the 7 methods on a registered and on an "
+         "unregistered path runs the handler of that method's tree (HEAD: the GET handler, answered without a body but with its headers); no route => 404 from the catch proc.",
+    design_ref="DESIGN.md §4 C01, §9.9",
     note="Bounded by path length 8 and by the three tree shapes. Not under contract: registration (base.rs), From<base::Node> (compression, child sort), merge of nested Ohkamis, "
-         "Router::handle's HEAD branch, paths with empty segments (safety only). A genuine defect found by these obligations was repaired (fix: 1cbecf7).",
+         "paths with empty segments (safety only). A genuine defect found by these obligations was repaired (fix: 1cbecf7).",
     technique="Kani function contract (proof_for_contract) + harness contracts over symbolic byte strings; concrete trees with symbolic request paths",
 )
 
@@ -77,10 +78,11 @@ CLAIMED["C02"] = dict(
     text="Bounded, piece contracts only. Method::from_bytes (Some(m) iff the token is exactly a method name, all tokens <= 8 bytes); request Header::from_bytes (a recognised name equals "
          "the standard name up to ASCII case for all names <= 12 bytes; canonical and all-lowercase spelling of all 46 headers are recognised; the case-insensitivity clause for every case "
          "variant of Content-Length is evaluated and is a KNOWN FINDING); repeated standard headers joined in order with `, `; Request::read_payload returns exactly the announced body bytes for "
-         "every split between bytes that arrived with the head and bytes still to come (shared with C06).",
-    design_ref="DESIGN.md §4 C02",
-    note="The request-line / header-loop glue of Request::read (target, version, header lines, Content-Length fold) and QueryParams::iter are NOT under a discharged contract: a whole-read "
-         "harness does not get through CBMC's symbolic execution (DESIGN §2). Known finding KF-C02-header-case (open). A genuine defect was repaired (fix: 14e1cdc).",
+         "every split between bytes that arrived with the head and bytes still to come (shared with C06). The synchronous request-line / header-block parsing of Request::read, extracted VERBATIM on every run "
+         "(//@extract), on 17 enumerated concrete heads: 5 well-formed (method, path with one trailing slash ignored, query, header values, Content-Length, bytes following the head as the wire denotes) and 12 malformed "
+         "(unknown method closes the connection; other version, missing version, bad target, header without `: `, unterminated head, target or query running to the end of the input, Content-Length `1x` / 23 digits / `-1`: an error response, never a panic).",
+    design_ref="DESIGN.md §4 C02, §9.8",
+    note="The head parsing is decided on enumerated concrete heads only (symbolic heads and the whole async read do not get through CBMC, DESIGN §2); dropped by the extraction: the first stream.read, read_payload's await (C06) and the PAYLOAD_LIMIT match; QueryParams::iter is under contract in C09. Known finding KF-C02-header-case (open). Genuine defects were repaired (fix: 14e1cdc; f511a14 unwrap on a target running to the end of the input; af1541e unchecked Content-Length fold).",
     technique="Kani harness contracts over all short byte strings / all case masks; scripted AsyncRead for read_payload",
 )
 CLAIMED["C05"] = dict(
